@@ -5,7 +5,7 @@
    correspondence check; theorems over the reals for ALL inputs. *)
 From Coq Require Import Reals ZArith QArith List String Bool.
 From Verif Require Import Scalar RInst KField KtoR Quat QuatAlg GroupK Groups GroupFacts SymDot SymDotK ZoneModel ZoneProofs
-  CertCheck CertSound RegionCertsAll RegionCertsAllOK.
+  CertCheck CertSound RegionCertsAll RegionCertsAllOK ExistCheck RegionExistAllOK.
 Import ListNotations.
 Local Open Scope R_scope.
 
@@ -88,11 +88,40 @@ Theorem C05_all_proper_pairs_covered : Datatypes.length (List.concat all_region_
 Proof. exact region_count. Qed.
 Print Assumptions C05_all_proper_pairs_covered.
 
-(* PARTIAL, still oracle-only: that every orbit HAS a member inside the region
-   (so that the loop always ends inside) and that all members of an orbit reduce to
-   the same representative off the boundaries -- this needs the axis fundamental zone
-   of the common subgroup to be a fundamental domain for conjugation; and the 1e-9
-   tolerance of the inside test (the theorems are for the exact test). *)
+(* EVERY ORBIT HAS A MEMBER INSIDE THE REGION, for all 225 ordered pairs of proper groups and every real
+   quaternion x.  Proof: among the finitely many gl * x * gr take one with the largest |Re|; all members with that
+   |Re| satisfy every large-cell inequality (the distinguished points are exactly the products, checked in K);
+   conjugation by an operation h common to both groups keeps Re and rotates the vector part, and an exact cover
+   tree (as for the fundamental sectors of C07; found by LPs, checked by vm_compute, sound over R) shows that the
+   cone of the pure-vector normals the region keeps -- the axis fundamental zone of Gl & Gr -- reaches every
+   direction under those h; the kept normals are large-cell or pure-vector normals (checked in K). *)
+Theorem C05_orbit_has_member_inside_region : forall rc, In rc (List.concat all_region_certs) ->
+  forall x : quat (T:=R), exists gl gr,
+    In gl (map qtoR (proper_quats (rc_l rc))) /\ In gr (map qtoR (proper_quats (rc_r rc))) /\
+    inside_region ROps 0 (map qtoR (rc_N rc)) (transform ROps gl gr x) = true.
+Proof. exact region_has_orbit_member. Qed.
+Print Assumptions C05_orbit_has_member_inside_region.
+
+(* THE MAIN CLAUSE AT FULL STRENGTH (exact arithmetic, eps = 0): for every ordered pair of proper groups and every
+   input M the value returned by the reduction loop of the code
+     - lies inside the orientation region constructed for the same symmetries,
+     - is gl * M * gr for proper operations gl, gr of the two groups,
+     - has the smallest rotation angle 2 acos |Re| attainable in that orbit. *)
+Theorem C05_reduction_returns_minimal_member_inside_region : forall rc, In rc (List.concat all_region_certs) ->
+  forall M : quat (T:=R),
+  let Gl := map qtoR (proper_quats (rc_l rc)) in
+  let Gr := map qtoR (proper_quats (rc_r rc)) in
+  let N := map qtoR (rc_N rc) in
+  let r := reduce ROps 0 N Gl Gr M in
+  inside_region ROps 0 N r = true /\
+  (exists gl gr, In gl Gl /\ In gr Gr /\ r = transform ROps gl gr M) /\
+  (forall gl gr, In gl Gl -> In gr Gr -> Rabs (qre (transform ROps gl gr M)) <= Rabs (qre r)).
+Proof. exact reduce_result_inside_and_minimal. Qed.
+Print Assumptions C05_reduction_returns_minimal_member_inside_region.
+
+(* PARTIAL, still oracle-only: that all members of an orbit reduce to the SAME representative off the region
+   boundaries (uniqueness needs the interiors of the images of the region to be disjoint), and the 1e-9 tolerance
+   of the inside test (the theorems are for the exact test). *)
 
 Example C05_nonvacuous :
   inside_region ROps 0 (large_cell ROps [(0, 1, 0, 0)]) (1, 0, 0, 0) = true.
